@@ -109,7 +109,7 @@ CLAIMS = {
     "C06": dict(
         text="Theorems about the model of is_memload/_update_reg_changes for all registers, displacements and tracked increments: "
              "same_location_edge, untouched_iff_disp_eq, no_edge_when_disp_differs / regs_differ / unknown / scale_differs / "
-             "base_vs_nobase, no_edge_after_register_post_index (an access post-indexed by a register leaves its base unknown for good), store_ends_search (all suffixes), update_add_add; tracks_preserved, tracking_sound and store_load_edge_sound (every store->load emission is address-exact under a concrete register-valuation semantics, for every start valuation and execution -- including the storing instruction's own post-index write-back -- and for every meaning of the symbols used as displacements); post_indexed_store_edge, no_edge_symbol_vs_number, no_edge_different_symbols, same_symbol_edge. Tie: create_DG on generated store/load kernels of both "
+             "base_vs_nobase, no_edge_after_register_post_index (an access post-indexed by a register leaves its base unknown until a copy of another register overwrites it), increment_of_unknown_stays_unknown, copy_from_known_makes_known, unknown_stays_without_copy, store_ends_search (all suffixes), update_add_add; tracks_preserved, tracking_sound and store_load_edge_sound (every store->load emission is address-exact under a concrete register-valuation semantics, for every start valuation and execution -- including the storing instruction's own post-index write-back -- and for every meaning of the symbols used as displacements); post_indexed_store_edge, no_edge_symbol_vs_number, no_edge_different_symbols, same_symbol_edge. Tie: create_DG on generated store/load kernels of both "
              "ISAs vs the model; oracle: the generator's own symbolic bookkeeping (edge iff same location, with the forwarding weight).",
         design="5/C06", note=COMMON_NOTE + "Modelled not verified: networkx path search (replaced by the model's own enumeration), the parsers and the role assignment (taken from the implementation per kernel: the model consumes the implementation's semantic operands, latencies and register changes). Not covered: a load that overwrites its own address register; pre-indexed loads directly aliasing the store.",
         technique="Lean 4 proof (decision logic of the address comparison) + differential correspondence + symbolic oracle",
